@@ -397,6 +397,8 @@ func c15(c *h.Ctx) {
 		}
 		f := dir + "/f" + fc.ext
 		h.WriteFile(f, fc.content)
+		// `validate` runs without -c: keep the default-config discovery from walking up into foreign directories
+		h.WriteFile(dir+"/taskctl.yaml", "{}\n")
 		c.Nontrivial(fc.ext + fc.content + fmt.Sprint(fc.aux))
 		run := func(args ...string) h.ProcResult {
 			res := tc{Dir: dir, Timeout: 10 * time.Second}.run(c, args...)
